@@ -220,7 +220,8 @@ func TestC09(t *testing.T) {
 	for _, p := range progs {
 		pn = append(pn, p.String())
 	}
-	r.Extra["programs"] = pn
+	r.Extra["program_list"] = pn
+	r.Extra["programs"] = len(pn)
 	r.Extra["preemption_bound"] = bound
 	r.Rule = fmt.Sprintf("two (thorough: also three) client threads on key a (PatchInc on a msgpack key m) of one swamp that always keeps one other record, for three configurations (in-memory, persistent with a 1 s write interval, persistent immediate-write); %d programs over {Set, IncrementInt32, PatchTreasures INC, Delete, ShiftByKeys, Get}; every schedule with at most %d preemptions at the scheduling points of the record guard, treasure, swamp save/increment/delete/patch paths, the key beacon and the gateway handlers; the whole in-process server is rebuilt for every execution. Oracle: the recorded call/return history plus a final Get is linearizable against the sequential model (brute force over every order respecting real time; responses coarsened to NEW/not-NEW, value+incremented flag, DELETED/NOT_FOUND, existence+value); for PatchInc the final counter equals the number of acknowledged patches. Non-trivial = executions with at least one preemption", len(progs), bound)
 	r.Assumptions = []string{"sequentially consistent memory (scheduling points at synchronisation operations)", "responses are coarsened so that sequential status quirks (C06) cannot appear as non-linearizability", "a request that panics inside the gateway (recovered) is recorded as 'no-response' and makes the history non-linearizable"}
